@@ -400,3 +400,4 @@ fn level4_validate_contract() {
     core::mem::forget(r);
     core::mem::forget(dt);
 }
+
